@@ -144,3 +144,39 @@ Definition decode_gzip_code (head_ok : bool) (stream_len : Z) (serr : bool) (b :
   | Err e => p_err_code e
   | Panic => 9
   end.
+
+(* ---------- decoding into a previously used (dirty) value ----------
+   The receivers of Decode are long-lived in read loops. [old] is what the receiver held
+   before the call. append(old[:0], x...) keeps nothing of old; copy(target, src) overwrites
+   only the first min(len target, len src) elements of target. *)
+Definition go_reset_append {A} (old x : list A) : list A := firstn 0 old ++ x.
+Definition go_copy (target src : list Z) : list Z :=
+  firstn (length target) src ++ skipn (length src) target.
+
+(* UnencryptedMessage.Decode: u.MessageData = append(u.MessageData[:0], make([]byte, dataLen)...);
+   b.ConsumeN(u.MessageData, dataLen) *)
+Definition decode_unencrypted_into (old : list Z) (b : list Z) : res p_err (Z * list Z * list Z) :=
+  do (ak, b) <- wrapT (decode_long b);
+  if negb (ak =? 0) then Err PAuthKey else
+  do (id, b) <- wrapT (decode_long b);
+  do (dl, b) <- wrapT (decode_int32 b);
+  if dl <? 0 then Err (PTl EInvalidLength) else
+  if dl >? len b then Err (PTl EEOF) else
+  let target := go_reset_append old (zeros dl) in
+  do (p, b) <- wrapT (take dl b);
+  Ok (id, go_copy target p, b).
+
+(* Result.Decode: r.Result = append(r.Result[:0], b.Buf...) *)
+Definition decode_result_into (old : list Z) (b : list Z) : res p_err (Z * list Z * list Z) :=
+  do b1 <- wrapT (consume_id c_ResultTypeID b);
+  do (id, b2) <- wrapT (decode_long b1);
+  do rest <- go_slice b2 (len b2) (len b2);
+  Ok (id, go_reset_append old b2, rest).
+
+(* MessageContainer.Decode: m.Messages = m.Messages[:0]; ... m.Messages = append(m.Messages, msg) *)
+Definition decode_container_into (old : list msg) (b : list Z) : res p_err (list msg * list Z) :=
+  do b1 <- wrapT (consume_id c_MessageContainerTypeID b);
+  do (n, b2) <- wrapT (decode_int b1);
+  if container_count_bad_go n then Err (PTl EInvalidLength) else
+  do (ms, b3) <- dec_msgs (S (length b2)) n b2;
+  Ok (go_reset_append old [] ++ ms, b3).
